@@ -154,8 +154,23 @@ pub fn record(args: &Args) {
             let mut fatal = false;
             let total_steps = steps + 400; // honest tail
             let mut idle = 0;
+            // some runs: the trusted peer leaves (an ordinary one stays) right after the first batch was
+            // requested, then the environment is honest: syncing must still complete
+            let early_leave = mode == "c38" && run % 3 == 1;
+            let mut force_honest = false;
             for step in 0..total_steps {
-                let adversarial = step < steps;
+                let adversarial = step < steps && !force_honest;
+                if early_leave && !force_honest && n_fetch >= 1 && connected && trusted_here {
+                    w::set_peer_counts(&handle, 2, 1);
+                    settle().await;
+                    tw.emit(json!({"name": "plainjoin", "st": world.snapshot(Some(&syncer)).await}));
+                    w::set_peer_counts(&handle, 1, 0);
+                    trusted_here = false;
+                    plain_peer = false;
+                    settle().await;
+                    tw.emit(json!({"name": "trustedleave", "st": world.snapshot(Some(&syncer)).await}));
+                    force_honest = true;
+                }
                 settle().await;
                 // 1. node events
                 drain_events(&mut sub, &world, &syncer, &mut tw, &mut cur_batch, &mut cur_kind, &mut failed_seen,
@@ -263,13 +278,13 @@ pub fn record(args: &Args) {
                                 tw.emit(json!({"name": "mark", "h": h, "st": world.snapshot(Some(&syncer)).await}));
                             }
                         }
-                        8 if connected && trusted_here && !plain_peer => {
+                        5 | 6 | 8 if (mode == "c38" || true) && connected && trusted_here && !plain_peer && rng.gen_bool(0.6) => {
                             w::set_peer_counts(&handle, 2, 1);
                             plain_peer = true;
                             settle().await;
                             tw.emit(json!({"name": "plainjoin", "st": world.snapshot(Some(&syncer)).await}));
                         }
-                        9 if connected && trusted_here && plain_peer => {
+                        5 | 6 | 7 | 9 if connected && trusted_here && plain_peer && rng.gen_bool(0.6) => {
                             // only the trusted peer leaves: the syncer must keep fetching
                             w::set_peer_counts(&handle, 1, 0);
                             trusted_here = false;
